@@ -570,6 +570,29 @@ func SelfTestQR() error {
 		QRMinVersion(1, 2, 3391) != 40 || QRMinVersion(1, 2, 3392) != 0 || QRMinVersion(0, 4, 17) != 1 || QRMinVersion(0, 4, 18) != 2 || QRMinVersion(2, 1, 27) != 1 {
 		return errors.New("QR capacities spot values (7089 / 1273 / 3391 / 17)")
 	}
+	// 80 symbols of an unrelated encoder: every version, all levels, all masks
+	for _, f := range qrFixtures {
+		n := 17 + 4*f.Version
+		m := make([][]bool, n)
+		for y, hexrow := range f.Rows {
+			m[y] = make([]bool, n)
+			for x := 0; x < n; x++ {
+				c := hexrow[x/4]
+				var v byte
+				switch {
+				case c >= '0' && c <= '9':
+					v = c - '0'
+				default:
+					v = c - 'a' + 10
+				}
+				m[y][x] = v&(8>>uint(x%4)) != 0
+			}
+		}
+		r, err := DecodeQR(m)
+		if err != nil || string(r.Content) != f.Text || r.Version != f.Version || r.Level != f.Level || r.Mask != f.Mask {
+			return fmt.Errorf("fixture version %d level %d mask %d: decoded %v, %v", f.Version, f.Level, f.Mask, r != nil && string(r.Content) == f.Text, err)
+		}
+	}
 	// externally sourced picture: "hello world", 2-H, byte mode (expected symbol of the library's test-suite, parsed as data)
 	r, err := DecodeQR(ParsePicture(qrHelloWorld, '+'))
 	if err != nil || string(r.Content) != "hello world" || r.Version != 2 || r.Level != 3 {
